@@ -56,6 +56,17 @@ func intsTok(xs []int64) string {
 	return "[" + strings.Join(p, ",") + "]"
 }
 
+// newHC: a hooks caller built by the real constructor (which also starts its loop), with a short
+// rate-limit interval.
+func newHC(dir, store string, R time.Duration) *HooksCaller {
+	h, err := NewHooksCaller(dir, store)
+	if err != nil {
+		panic(err)
+	}
+	h.rateLimit = R
+	return h
+}
+
 func suiteV19(c *vctx) {
 	r := c.r
 	// the agent's own environment already carries the variable the hooks are given (an exported shell
@@ -83,8 +94,7 @@ func suiteV19(c *vctx) {
 		log := filepath.Join(c.work, fmt.Sprintf("hk%d.log", pi))
 		os.Remove(log)
 		os.WriteFile(filepath.Join(dir, "hook.sh"), []byte(fmt.Sprintf(hookScript, log)), 0755)
-		h := &HooksCaller{Notify: make(chan bool, 32), NewStore: make(chan string, 1), dir: dir, store: "/store/" + fmt.Sprint(pi), rateLimit: R}
-		go h.run()
+		h := newHC(dir, "/store/"+fmt.Sprint(pi), R)
 		// offsets (ms) of the notifications: 0, 1, 2, many per interval; bursts; spaced around the timer
 		var offs []int64
 		switch pi % 7 {
@@ -183,8 +193,7 @@ func suiteV19(c *vctx) {
 			}
 		}
 		os.Chmod(dir, dirMode)
-		h := &HooksCaller{Notify: make(chan bool, 32), NewStore: make(chan string, 1), dir: dir, store: "/s", rateLimit: R}
-		go h.run()
+		h := newHC(dir, "/s", R)
 		h.Notify <- true
 		time.Sleep(500 * time.Millisecond)
 		ran := map[string]bool{}
@@ -208,6 +217,39 @@ func suiteV19(c *vctx) {
 		}
 		os.Chmod(dir, 0755)
 		os.RemoveAll(dir)
+	}
+	// (5) a hook that is still running when the next round is due, and then ends badly (non-zero exit, killed
+	// by a signal) or well: the change that arrived while it was alive is followed by a start of the hook
+	if c.mine(5) {
+		for ki, ending := range []string{"exit 1", "kill -9 $$", "exit 0", "exit 1"} {
+			dir := filepath.Join(c.work, fmt.Sprintf("slow%d", ki))
+			os.RemoveAll(dir)
+			os.MkdirAll(dir, 0755)
+			log := filepath.Join(c.work, fmt.Sprintf("slow%d.log", ki))
+			os.Remove(log)
+			// runs for 1.5 R (the last variant: 2.5 R, alive over two rounds), then ends
+			dur := 3 * Rms / 2
+			if ki == 3 {
+				dur = 5 * Rms / 2
+			}
+			os.WriteFile(filepath.Join(dir, "hook.sh"), []byte(fmt.Sprintf(hookScript, log)+fmt.Sprintf("sleep %d.%03d\n%s\n", dur/1000, dur%1000, ending)), 0755)
+			h := newHC(dir, "/slow", R)
+			start := time.Now()
+			var last int64
+			for _, o := range []int64{0, Rms + 100, 2*Rms + 250} {
+				time.Sleep(time.Until(start.Add(time.Duration(o) * time.Millisecond)))
+				last = time.Now().UnixNano()
+				h.Notify <- true
+			}
+			time.Sleep(3*R + 300*time.Millisecond)
+			followed := false
+			runs := readHookLog(log)
+			for _, x := range runs {
+				followed = followed || x.ns >= last
+			}
+			c.emit(fmt.Sprintf("law.C19.change_during_running_hook_is_followed_by_a_start ending=%s runs=%d", strings.ReplaceAll(ending, " ", "_"), len(runs)), vtf(followed))
+			os.RemoveAll(dir)
+		}
 	}
 	// (3) through the agent: successful changes notify, failed operations do not
 	if c.mine(3) {
